@@ -56,6 +56,9 @@ def _work(units):
             # and the same predicate with no else: false must be the unroutable error
             ast2 = esh.prog_of(("if", p, ("ret", (("T", "1"),)), None))
             progcheck.check_prog(acc, ast2, [dict(e, u="id7") for e in envs], "op-noelse:" + tag)
+            # negated, and negated inside a conjunction (a rewrite of `not a < b` into `a >= b` is wrong for NaN)
+            ast3 = esh.prog_of(("if", ("not", p), ("ret", (("N", "1"),)), ("elif", ("and", p, ("not", ("not", p))), ("ret", (("P", "1"),)), None)))
+            progcheck.check_prog(acc, ast3, [dict(e, u="id7") for e in envs], "op-not:" + tag)
         elif kind == "cross":
             _, tj, i0, i1 = u
             a0, a1 = eops.CROSS_ATOMS[i0], eops.CROSS_ATOMS[i1]
